@@ -189,7 +189,12 @@ class Run:
                 nd += 1
                 self.disagreements.append((name, l, r, model[i]))
             if oracle is not None:
-                msg = oracle(l, r)
+                try:
+                    msg = oracle(l, r)
+                except Exception:
+                    if not r.startswith("ERR"):
+                        raise
+                    msg = f"exception {r}"      # the real operation raised where the oracle expects a value
                 if msg:
                     sig = classify(l, r, model[i], msg) if classify else None
                     # a known finding is the behaviour of the UNCHANGED code, which the model mirrors:
